@@ -46,7 +46,7 @@ async def run_tcp(cases):
             await api.connect()
             try:
                 try:
-                    r = await asyncio.wait_for(world.call_op(api, c["kind"], c["args"]), 5)
+                    r = await asyncio.wait_for(world.call_op(api, c["kind"], c["args"]), 30)
                     res = world.show_response(c["kind"], r)
                 except asyncio.TimeoutError: res = "exc:Timeout"
                 except Exception as e: res = "exc:" + world.exc_name(e)
@@ -78,7 +78,7 @@ async def run_tcp_sequences(seqs):
                 for c in seq:
                     k0 = len(dev.log); dev.script[:] = [bytes.fromhex(r) for r in c["replies"]]
                     try:
-                        r = await asyncio.wait_for(world.call_op(api, c["kind"], c["args"]), 5)
+                        r = await asyncio.wait_for(world.call_op(api, c["kind"], c["args"]), 30)
                         res = world.show_response(c["kind"], r)
                     except asyncio.TimeoutError: res = "exc:Timeout"
                     except Exception as e: res = "exc:" + world.exc_name(e)
